@@ -104,6 +104,23 @@ def differential(ctx, jobs, srcs, kinds_bad=('DIFF', 'HALT', 'FAULT', 'ASMERROR'
         k = classify(r['vm'], r['src'], allow_stack)
         tally[k] = tally.get(k, 0) + 1
         if k in kinds_bad: bad.append((c['id'], k))
+    # an --unchecked build that runs out of stack is undefined (nothing checks it): when the checked build of the
+    # same program in the same configuration reports stack_overflow, the unchecked run decides nothing
+    jm0 = {j[0]: j for j in jobs}
+    sus = [(cid, k) for cid, k in bad if jm0[cid][5]]
+    if sus and allow_stack:
+        twins = [(cid + '#ck', jm0[cid][1], jm0[cid][2], jm0[cid][3], jm0[cid][4], False, jm0[cid][6]) for cid, _ in sus]
+        tc, _ = compile_cases(twins)
+        tr = hidlib.run_parallel(tc, chunk=64)
+        drop = set()
+        for cid, k in sus:
+            r = tr.get(cid + '#ck')
+            if r and 'vm' in r and 'stack_overflow' in r['vm'].flags:
+                drop.add(cid)
+                tally[k] -= 1
+                if not tally[k]: del tally[k]
+                tally['inconclusive:stack'] = tally.get('inconclusive:stack', 0) + 1
+        bad = [(cid, k) for cid, k in bad if cid not in drop]
     st = ctx.stats.setdefault(label, {})
     for k, v in tally.items(): st[k] = st.get(k, 0) + v
     st['rejected_by_compiler'] = st.get('rejected_by_compiler', 0) + len(rejected)
@@ -353,6 +370,11 @@ def core_suite(ctx, n, configs=((2, 100, False), (3, 40, True), (8, 12, False), 
             diffs.append((src, dict(w=w, stack=s, unchecked=un, args=args), r.outcome[:600]))
             continue
         ref = res.get(cid, {}).get('src')
+        if 'stack_overflow' in r.flags:
+            # the model says the checked build has no room for the entry frame: the source semantics knows no stack, so this
+            # verdict is compared with the emitted code on the reference VM
+            ref = res.get(cid, {}).get('vm')
+            tally['overflow_verdicts'] = tally.get('overflow_verdicts', 0) + 1
         if ref is not None and r.trace != 'fuel' and ref.outcome == 'terminal':
             if r.events != ref.events:
                 semdiffs.append((src, dict(w=w, stack=s, unchecked=un, args=args), r.trace[:200], ref.trace[:200]))
